@@ -22,7 +22,7 @@ Histories == UNION { [1..l -> Msgs] : l \in 0..ExhLen }
 CInit == /\ c \in { [nonop |-> no, msgs |-> h] : no \in NonOpsDef, h \in Histories }
          /\ par = CHOOSE p \in Pars : TRUE
          /\ phase = "signing" /\ nrecv = 0 /\ accepted = <<>>
-         /\ supporters = {} /\ outcome = "none"
+         /\ supporters = {} /\ outcome = [hq \in HQ |-> "none"]
 CNext == UNCHANGED <<c, vars>>
 CSpec == CInit /\ [][CNext]_<<c, vars>>
 
@@ -44,7 +44,8 @@ CaseSound ==
     \A rule \in {"dropAll", "firstWins"} :
         \A v \in Verdict(rule) :
             v.m # Self => /\ c.msgs[v.at].sender = v.m /\ c.msgs[v.at].hash = "mine"
-                          /\ c.msgs[v.at].sig = "valid" /\ c.msgs[v.at].key = "network"
+                          /\ c.msgs[v.at].sig = "valid" /\ ValidFor(c.msgs[v.at]) = v.m
+                          /\ c.msgs[v.at].key = "network"
                           /\ c.msgs[v.at].origin = "member" /\ v.m \notin c.nonop
 
 Emit ==
@@ -55,7 +56,7 @@ Emit ==
 
 Gates ==
     { [proto |-> p, n |-> N, h |-> h, q |-> q, threshold |-> ThresholdP(p, h, q)] :
-        p \in Protos, h \in Hs, q \in Qs }
+        p \in Protos, h \in Hs, q \in Qs }   \* all pairs, also h > q: the code does not care
 
 EmitGates == CSVWrite("%1$s", <<ToJson(Gates)>>, "gates.ndjson")
 =============================================================================
